@@ -1,5 +1,6 @@
 import AL.Model.Needs
 import AL.Spec.Digraph
+import AL.Lemmas.NeedsBasic
 /-
   C18 — job dependency checks are exact for every needs graph.
   Statements. Proved theorems are added below by name; statements that are not yet proved stay
@@ -39,5 +40,44 @@ def undefined_exact_statement : Prop :=
 def at_most_one_statement : Prop :=
   ∀ (lower : String → String) (jobs : List JobIn) (order : List Nat),
     ((check lower jobs order).filter (fun d => match d with | .cyclic _ => true | _ => false)).length ≤ 1
+
+/-! ## Proofs -/
+
+/-- (f) -/
+theorem at_most_one : at_most_one_statement := by
+  intro lower jobs order
+  have hfun : (fun d : Diag => match d with | .cyclic _ => true | _ => false) = Diag.isCyclic := by
+    funext d; cases d <;> rfl
+  rw [hfun]
+  unfold check
+  have h0 := filter_isCyclic_eq_nil (visitJobs_no_cyclic lower jobs [])
+  have h1 := filter_isCyclic_eq_nil (resolve_no_cyclic (visitJobs lower jobs []).1)
+  simp only []
+  split
+  · simp [List.filter_append, h0, h1]
+  · split
+    · simp [List.filter_append, h0, List.filter_cons]
+      split <;> simp
+    · simp [h0]
+
+/-- (e) -/
+theorem undefined_exact : undefined_exact_statement := by
+  intro nodes p i d
+  simp only [resolve, List.mem_flatMap, List.mem_map, List.mem_filter]
+  constructor
+  · rintro ⟨n, hn, dep, ⟨hdep, hnone⟩, heq⟩
+    cases heq
+    exact ⟨n, hn, rfl, rfl, hdep, (indexOf?_isNone nodes _).1 hnone⟩
+  · rintro ⟨n, hn, rfl, rfl, hd, hall⟩
+    exact ⟨n, hn, d, ⟨hd, (indexOf?_isNone nodes d).2 hall⟩, rfl⟩
+
+/-- (d) -/
+theorem fuel_irrelevant : fuel_irrelevant_statement := by
+  intro g st v f _ hlen _ hf
+  unfold detectCyclicNode
+  have : countNew (setStatus st v .active) ≤ g.length := by
+    have := countNew_le_length (setStatus st v .active)
+    simpa [setStatus, hlen] using this
+  exact visitList_fuel_irrel g f g.length _ v _ (by omega) this
 
 end AL.C18
